@@ -43,6 +43,7 @@ var optionPatterns = []string{
 	"# c\n12", "a # c\n b", " # c\n ", "#a\n#b\n", "a ￿ b", "￿12", "12￿", "￿￿ x", "/*c*/￿", "😀/*c*/", "  a  ", "\t\n 1 \r\n", "'it''s' \"x\"\"y\"",
 	"{{😀 ! c }}x", "{{ 😀!x}}", "{{! it's }}a{{b}}'c", "{{!'}}x'y", "{{ !\"q }}{{a}}\"", "{{!}}", "{{ ! }}", "a{{!c",
 	"{{ \"}}\" x }}", "{{ '}}}' y }}{{z}}", "a{{ \"}}\" }}b{{c}}", "/* a **/ x", "/***/ y /* b */ z", "/** d **/z", "a \u00a0b", " \u0085x", "\t\u2028y", " \u007fz", "\n\u3000w",
+	"Hi {{x '{{' !a b}} end", "{{ \"{{{\" ! c }}z", "{{ '{{' ! 'q' }}{{b}}", "a+/* first\n*/cd*2", "ab /*x\n */ cd", "1 /* a\nbc */ 23", "x  \n   y", "a /*c*/\n /*d*/ b", "#c\n#d\nzz", "  /* a\n  */  /* b\n  */  q",
 	"\"x\",'y',\"a\"\"b\"", "{{ a }}", "x{{#if a}} y {{/if}}z", "{{ 😀 }}", "{{a}} 😀 {{b}}", "a,\"b 😀\",c\r\n1,2,3", "a\n\nb", "\r\r\n\n\r", "1 2\n3.5 4\r\n-5", "1/*c*/2", "1 /*c*/ 2.5e3", "a//c\nb", "a // c\n b",
 }
 
@@ -564,7 +565,7 @@ func c12CompiledPositions(cfg *mon.Config) *mon.Sub {
 func c12TemplateErrorPositions(cfg *mon.Config) *mon.Sub {
 	return &mon.Sub{
 		Name:  "template-error-positions",
-		Rule:  "seeded well-formed templates (text with line breaks of all styles, variables, comments, nested sections) made malformed at a known place: a stray end tag {{/zzq}} inserted between two segments (at top level or inside open sections, with and without anything after it), or one more closing brace on a variable tag; the template must be rejected, and when the message quotes a line and column they must - by the independent line/column model - lie inside the offending tag (from its first opening brace to its last closing brace); non-trivial = the tag is not on the first line",
+		Rule:  "seeded well-formed templates (text with line breaks of all styles, variables, comments, nested sections) made malformed at a known place: a stray end tag {{/zzq}}, a tag with a symbol no tag may contain (%, %d, ?, *, =, + ...) or an inverted section spelled {{^if zzq}} inserted between two segments (at top level or inside open sections, with and without anything after it), or one more closing brace on a variable tag; the template must be rejected, and when the message quotes a line and column they must - by the independent line/column model - lie inside the offending tag (from its first opening brace to its last closing brace); non-trivial = the tag is not on the first line",
 		Floor: 200,
 		Gen: func(emit func(string)) {
 			r := cfg.Rng("c12-tmplerr")
@@ -576,13 +577,20 @@ func c12TemplateErrorPositions(cfg *mon.Config) *mon.Sub {
 				start, end := -1, -1
 				if r.Chance(3, 4) || len(segs) == 0 {
 					at := r.Intn(len(segs) + 1)
+					bad := "{{" + mon.Pick(r, tmplPads[:8]) + "/" + "zzq" + mon.Pick(r, tmplPads[:8]) + "}}"
+					switch r.Intn(5) {
+					case 0: // a symbol that no tag may contain, also ones that look like format verbs
+						bad = "{{" + mon.Pick(r, tmplPads[:8]) + "discount " + mon.Pick(r, []string{"%", "%d", "%s %s", "%!", "?", "*", "=", "+", "%v%%"}) + mon.Pick(r, tmplPads[:8]) + "}}"
+					case 1: // an inverted section spelled with a section word
+						bad = "{{^" + mon.Pick(r, []string{"if", "unless", "IF"}) + " " + mon.Pick(r, tmplPads[:8]) + "zzq" + mon.Pick(r, tmplPads[:8]) + "}}"
+					}
 					for k := 0; k <= len(segs); k++ {
 						if k == at {
 							start = len([]rune(b.String()))
-							b.WriteString("{{" + mon.Pick(r, tmplPads[:8]) + "/" + "zzq" + mon.Pick(r, tmplPads[:8]) + "}}")
+							b.WriteString(bad)
 							end = len([]rune(b.String()))
 							if r.Bool() {
-								b.WriteString(mon.Pick(r, []string{"tail", "\nmore\n{{a}}", " x"}))
+								b.WriteString(mon.Pick(r, []string{"tail", "\nmore\n{{a}} ", " x"}))
 							}
 						}
 						if k < len(segs) {
@@ -633,6 +641,10 @@ func c12TemplateErrorPositions(cfg *mon.Config) *mon.Sub {
 			}
 			m := reLineCol.FindStringSubmatch(err.Error())
 			if m == nil {
+				if strings.Contains(err.Error(), " at line ") || strings.Contains(err.Error(), "%!") {
+					c.Failf("position quoted when a template is rejected does not point at the offending tag", "template=%q offending tag %q: the message quotes no readable line and column: %v", src, string([]rune(src)[start:end]), err)
+					return
+				}
 				c.Count("error without a position")
 				return
 			}
